@@ -746,7 +746,7 @@ func (w *world) tick() {
 func (w *world) prune(n int) {
 	w.pmm.RemoveMessagesBeforeInstance(w.ctx, uint64(n))
 	w.settle(0)
-	w.line(ev{"ev": "Prune", "n": n}, false)
+	w.line(ev{"ev": "Prune", "below": n}, false)
 }
 
 func (w *world) drainEv() {
@@ -1012,5 +1012,66 @@ func TestMgrHistories(t *testing.T) {
 	n, steps := envInt("VERIF_N", 30), envInt("VERIF_STEPS", 40)
 	for h := 0; h < n; h++ {
 		w.randomHistory(steps)
+	}
+}
+
+// ---------------------------------------------------------------------------- model-generated histories (spec -> code)
+
+type mop struct {
+	Op    string `json:"op"`
+	Inst  int    `json:"inst"`
+	Snd   int    `json:"snd"`
+	Ak    []int  `json:"ak"`
+	Oc    []int  `json:"oc"`
+	Jk    string `json:"jk"`
+	Chain []int  `json:"chain"`
+	N     int    `json:"n"`
+}
+
+type mhist struct {
+	Cap    int   `json:"cap"`
+	CapOut int   `json:"capOut"`
+	Ops    []mop `json:"ops"`
+}
+
+// TestMgrModel executes operation sequences generated by TLC (-simulate on MCPartialManager, variable hist).  The abstract
+// message (instance, sender, announced key, signed chain, justification kind) becomes a real signed message; a message whose
+// announced key is not the key of the signed chain is handed to the manager although stage 1 rejects it (the model says fed).
+func TestMgrModel(t *testing.T) {
+	w, done := newWorld(t)
+	defer done()
+	b, err := os.ReadFile(os.Getenv("VERIF_IN"))
+	if err != nil {
+		t.Fatal(err)
+	}
+	var hs []mhist
+	if err := json.Unmarshal(b, &hs); err != nil {
+		t.Fatal(err)
+	}
+	kindFor := map[string]string{"none": "P0", "val": "C0", "bot": "P1b"}
+	for _, h := range hs {
+		w.reset(h.Cap, h.CapOut, false, true, "model")
+		for _, o := range h.Ops {
+			spec := msgSpec{kind: kindFor[o.Jk], sender: o.Snd, inst: o.Inst, value: o.Oc, announce: o.Ak}
+			switch o.Op {
+			case "Arrive":
+				w.arrive(spec)
+			case "Complete":
+				w.complete(spec)
+			case "Notify":
+				w.notify(o.Inst, o.Chain)
+			case "Admit":
+				w.admit(o.Inst, o.Chain)
+			case "Own":
+				w.own(o.Inst, o.Chain)
+			case "Tick":
+				w.tick()
+			case "Prune":
+				w.prune(o.N)
+			case "Take":
+			default:
+				t.Fatalf("unknown op %q", o.Op)
+			}
+		}
 	}
 }
